@@ -409,6 +409,7 @@ int _vnadata_load_npd(vnadata_internal_t *vdip, FILE *fp, const char *filename)
     int rows = -1;
     int columns = -1;
     int ports = -1;
+    int z0_ports = -1;
     int frequencies = -1;
     int rv = -1;
     int n_fields = 1;
@@ -574,12 +575,6 @@ int _vnadata_load_npd(vnadata_internal_t *vdip, FILE *fp, const char *filename)
 		    ports = columns;
 		}
 	    }
-	    if (ports < 0) {
-		_vnadata_error(vdip, VNAERR_SYNTAX, "%s (line %d) error: "
-			"ports must come before #:z0",
-			nss.nss_filename, nss.nss_line);
-		goto out;
-	    }
 	    if (nss.nss_field_count == 2 &&
 		    strcasecmp(FIELD(&nss, 1), "PER-FREQUENCY") == 0) {
 		fz0 = true;
@@ -588,22 +583,38 @@ int _vnadata_load_npd(vnadata_internal_t *vdip, FILE *fp, const char *filename)
 		}
 		continue;
 	    }
-	    if (nss.nss_field_count != 1 + 2 * ports) {
+
+	    /*
+	     * The header lines may come in any order.  If the number
+	     * of ports isn't known yet, take it from the number of
+	     * values given here and cross check it after the header.
+	     */
+	    if (ports >= 0) {
+		z0_ports = ports;
+	    } else if (nss.nss_field_count >= 3 &&
+		    nss.nss_field_count % 2 == 1) {
+		z0_ports = (int)(nss.nss_field_count - 1) / 2;
+	    } else {
+		_vnadata_error(vdip, VNAERR_SYNTAX, "%s (line %d) error: "
+			"expected a real and imaginary value per port "
+			"after z0", nss.nss_filename, nss.nss_line);
+		goto out;
+	    }
+	    if (nss.nss_field_count != 1 + 2 * z0_ports) {
 		_vnadata_error(vdip, VNAERR_SYNTAX, "%s (line %d) error: "
 			"expected %d fields after z0",
 			nss.nss_filename, nss.nss_line,
-			2 * ports);
+			2 * z0_ports);
 		goto out;
 	    }
-	    if (z0_vector == NULL) {
-		if ((z0_vector = calloc(ports,
-				sizeof(double complex))) == NULL) {
-		    _vnadata_error(vdip, VNAERR_SYSTEM,
-			    "calloc: %s", strerror(errno));
-		    goto out;
-		}
+	    free((void *)z0_vector);
+	    if ((z0_vector = calloc(z0_ports,
+			    sizeof(double complex))) == NULL) {
+		_vnadata_error(vdip, VNAERR_SYSTEM,
+			"calloc: %s", strerror(errno));
+		goto out;
 	    }
-	    for (int port = 0; port < ports; ++port) {
+	    for (int port = 0; port < z0_ports; ++port) {
 		double re = 0.0, im = 0.0;
 		char *cp;
 
@@ -654,6 +665,12 @@ int _vnadata_load_npd(vnadata_internal_t *vdip, FILE *fp, const char *filename)
 	_vnadata_error(vdip, VNAERR_SYNTAX, "%s (line %d) error: "
 		"required keyword #:ports missing",
 		nss.nss_filename, nss.nss_line);
+	goto out;
+    }
+    if (z0_vector != NULL && z0_ports != ports) {
+	_vnadata_error(vdip, VNAERR_SYNTAX, "%s (line %d) error: "
+		"#:z0 gives %d impedance(s) but #:ports is %d",
+		nss.nss_filename, nss.nss_line, z0_ports, ports);
 	goto out;
     }
     if (frequencies < 0) {
